@@ -425,12 +425,19 @@ def conf_strategy():
     ep = st.tuples(st.sampled_from(['https://x.example.org/a', 'https://x.example.org/b', 'https://x.example.org/c?d=1']), st.integers(0, 3)).map(list)
     # explicit endpoint indexes (documented 3-tuple form): none, or distinct values out of 0 / 1 / 5 as int or str, assigned in order
     idx = st.one_of(st.none(), st.permutations([0, 1, 5, '0', '7']))
-    return st.fixed_dictionaries({'kind': st.sampled_from(['sp', 'idp']), 'acs': st.lists(ep, min_size=1, max_size=3, unique_by=lambda e: (e[0], e[1])), 'acs_index': idx,
+    return st.fixed_dictionaries({'kind': st.sampled_from(['sp', 'idp']), 'acs': st.lists(ep, min_size=1, max_size=3, unique_by=lambda e: (e[0], e[1])), 'acs_index': idx, 'valid_for': st.sampled_from([None, None, 1, 24]), 'tz': st.sampled_from([None, None, 'PST8', 'JST-9']),
                                   'slo': st.lists(ep, max_size=2, unique_by=lambda e: (e[0], e[1])), 'key': st.integers(0, 9),
                                   'enc': st.lists(st.integers(0, 9), max_size=2, unique=True)})
 
 
 def run_conf(case):
+    if case.get('tz'):
+        with clock.tz(case['tz']):
+            return _run_conf(dict(case, tz=None))
+    return _run_conf(case)
+
+
+def _run_conf(case):
     from saml2_tophat.mdstore import MetadataStore
     from saml2_tophat.attribute_converter import ac_factory
     from saml2_tophat.config import Config
@@ -456,6 +463,8 @@ def run_conf(case):
         confd = world.sp_conf({'entityid': eid, 'acs': acs_conf, 'slo': [(u, B4[b]) for u, b in case['slo']], 'key': case['key'], 'enc_keys': case['enc']})
     else:
         confd = world.idp_conf({'entityid': eid, 'sso': [(u, B4[b]) for u, b in case['acs']], 'slo': [(u, B4[b]) for u, b in case['slo']], 'key': case['key']})
+    if case.get('valid_for'):
+        confd['valid_for'] = case['valid_for']      # hours: the generated metadata carries validUntil = now + valid_for
     xml = world.metadata_from_conf(confd, case['kind'])
     conf = Config()
     conf.xmlsec_binary = world.XMLSEC
